@@ -44,6 +44,7 @@ MatchPlain(s, o) ==     \* s: snapshot of the specification, o: observed value
     [] s.t = "arr" -> Len(s.e) = Len(o.e) /\ \A i \in 1..Len(s.e) : MatchPlain(s.e[i], o.e[i])
     [] s.t = "obj" -> /\ Len(s.ks) = Len(o.ks) /\ {s.ks[i] : i \in 1..Len(s.ks)} = {o.ks[i] : i \in 1..Len(o.ks)}
                       /\ \A i \in 1..Len(s.ks) : \E j \in 1..Len(o.ks) : o.ks[j] = s.ks[i] /\ MatchPlain(s.vs[i], o.vs[j])
+                      /\ \A j \in 1..Len(o.ks) : \E i \in 1..Len(s.ks) : o.ks[j] = s.ks[i] /\ MatchPlain(s.vs[i], o.vs[j])
     [] s.t \in {"fn", "nat"} -> s.name = o.name
     [] OTHER -> TRUE
 Perms(n) == { p \in [1..n -> 1..n] : \A i, j \in 1..n : p[i] = p[j] => i = j }
@@ -52,7 +53,7 @@ IsListingSnap(s) == s.t = "arr" /\ "lst" \in DOMAIN s /\ Len(s.e) >= 2
 RECURSIVE Nfc(_)
 Nfc(o) == CASE o.t = "str" -> [o EXCEPT !.s = NFC(o.s)]
             [] o.t = "arr" -> [o EXCEPT !.e = [i \in 1..Len(o.e) |-> Nfc(o.e[i])]]
-            [] o.t = "obj" -> [o EXCEPT !.vs = [i \in 1..Len(o.vs) |-> Nfc(o.vs[i])]]
+            [] o.t = "obj" -> [o EXCEPT !.vs = [i \in 1..Len(o.vs) |-> Nfc(o.vs[i])], !.ks = [i \in 1..Len(o.ks) |-> CpsStr(NFC(StrCps(o.ks[i])))]]
             [] OTHER -> o
 
 Init == /\ tr = 1 /\ l = 1 /\ ord = <<>>
